@@ -115,7 +115,7 @@ pub fn bang_reuse(r: &mut Runner, t: &[&str]) {
     }
     r.notes.push(format!("reuse: {} FSTs queried in reused buffers", pairs));
     // verified, then damaged IN PLACE (small and 64 KiB+ buffers)
-    for (n, klen) in [(40usize, 6usize), (300, 8), (9000, 12)] {
+    for (n, klen) in [(40usize, 6usize), (300, 8), (9000, 12), (60_000, 14)] {
         let ks = words(&mut rng, n, b"abcdefgh", klen);
         let kv: Kv = ks.iter().enumerate().map(|(i, k)| (k.clone(), i as u64 * 3 + 1)).collect();
         let mut buf = raw::Fst::from_iter_map(kv.iter().cloned()).unwrap().into_inner();
@@ -143,6 +143,38 @@ pub fn bang_reuse(r: &mut Runner, t: &[&str]) {
 pub fn bang_conc(r: &mut Runner, t: &[&str]) {
     let seed: u64 = t.get(1).and_then(|x| x.parse().ok()).unwrap_or(1);
     let mut rng = Rng::new(seed);
+    // the very first verify() of a shared FST, by all threads at the same moment (several sizes:
+    // the longer verify() runs, the more the calls overlap)
+    for nkeys in [50usize, 5_000, 60_000, 60_000, 60_000] {
+        let ks = words(&mut rng, nkeys, b"abcdefgh", 12);
+        let bytes = raw::Fst::from_iter_set(ks.iter()).unwrap().into_inner();
+        for as_map in [false, true] {
+            let f = Arc::new(raw::Fst::new(bytes.clone()).unwrap());
+            let m = Arc::new(fst::Map::new(bytes.clone()).unwrap());
+            let barrier = Arc::new(Barrier::new(16));
+            let hs: Vec<_> = (0..16)
+                .map(|_| {
+                    let (f, m, barrier) = (f.clone(), m.clone(), barrier.clone());
+                    std::thread::spawn(move || {
+                        barrier.wait();
+                        let a = if as_map { m.as_fst().verify().is_ok() } else { f.verify().is_ok() };
+                        let b = f.verify().is_ok();
+                        a && b
+                    })
+                })
+                .collect();
+            let mut panicked = 0;
+            let mut wrong = 0;
+            for h in hs {
+                match h.join() {
+                    Ok(true) => {}
+                    Ok(false) => wrong += 1,
+                    Err(_) => panicked += 1,
+                }
+            }
+            r.check(panicked == 0 && wrong == 0, || format!("C20 C08 16 threads calling verify() on one shared {}-byte FST for the first time at the same moment: {} panicked, {} got an error", bytes.len(), panicked, wrong));
+        }
+    }
     for round in 0..6 {
         // keys starting with many different bytes, values that put non-zero outputs on the root's transitions
         let mut ks: Vec<Vec<u8>> = vec![];
